@@ -40,6 +40,9 @@ def states(tier, seed):
         st.append(dict(part="sequence", sides=[a, b], ny=ny, model=model, layout="sweptdi", sec="varying", fam=fam))
     for (side, ny), sec, model in itertools.product([("left", 3), ("full", 5), ("right", 3)], ["varying", "tube"], ["tube", "wingbox"]):
         st.append(dict(part="frame", layout="sweptdi", side=side, ny=ny, sec=sec, model=model, gscale=1.0e-3, fam=fam))
+    # full-span structures whose mid-span is off the plane y = 0
+    for lay, ny, sec, model, yoff in itertools.product(["swept", "sweptdi"], [3, 5], ["varying"], ["tube", "wingbox"], [8.0, -3.0]):
+        st.append(dict(part="frame", layout=lay, side="full", ny=ny, sec=sec, model=model, yoff=yoff, fam=fam))
     # interleaved set-ups of beams of different materials: A set up, B (other material) set up, A analysed
     for mat, omat, (side, ny), model in itertools.product(["alu", "steel"], ["alu", "steel"], [("left", 3), ("full", 5)], ["tube", "wingbox"]):
         if mat != omat:
@@ -65,6 +68,10 @@ def nodes_of(s):
         y = np.abs(m[:, :, 1])
         m[:, :, 2] += 0.25 * np.maximum(y - 2.0, 0.0)
         m[:, :, 0] += 0.15 * np.maximum(y - 3.0, 0.0)
+    if s.get("yoff"):
+        # a full-span structure that is not centred on the plane y = 0 (mid-span at y = yoff): the clamp is at its own centre node
+        m = m.copy()
+        m[:, :, 1] += s["yoff"]
     return m * s.get("gscale", 1.0)  # gscale: the same beam at model scale (nothing in the frame equations carries a length scale)
 
 
